@@ -34,6 +34,7 @@ type c17Model struct {
 	badKinds  map[string]bool
 	prefixOK  map[string]bool // lines that may or may not appear when the run ends by a fatal interrupt
 	endless   bool
+	handshake bool // cores wait for each other's writes to globals: must complete within a step bound under fair scheduling
 }
 
 func c17Workload(spec RunSpec) c17Model {
@@ -215,6 +216,27 @@ fn sleeper(id: int) {
 			m.finals = append(m.finals, f)
 		}
 		tail()
+	case 7:
+		// handshake through globals: every core waits for values written by another one
+		rounds := 3 + iters*2
+		b.WriteString("let ping = 0;\nlet pong = 0;\n")
+		fmt.Fprintf(&b, `fn hw(id: int, n: int, rounds: int) {
+    for r in 0..rounds {
+        while ping <= r { }
+        while pong %% n != id { }
+        pong = pong + 1;
+    }
+    println("hw", id, "done");
+}
+`)
+		fmt.Fprintf(&b, "fn main() {\n    for i in 0..%d { spawn hw(i, %d, %d); }\n    for r in 0..%d {\n        ping = r + 1;\n        while pong < (r + 1) * %d { }\n    }\n", n, n, rounds, rounds, n)
+		for i := 0; i < n; i++ {
+			f := fmt.Sprintf("hw %d done", i)
+			add(f)
+			m.finals = append(m.finals, f)
+		}
+		m.handshake = true
+		tail()
 	case 6:
 		b.WriteString(`fn zero() {
     println("zero done");
@@ -269,6 +291,11 @@ func runC17(t *testing.T, spec RunSpec) *Verdict {
 		}
 		env.vm.SpawnAsync(runtime.MainFn(), nil, nil, nil)
 		s.SetDeadline("wait-returns", 3600e9)
+		if m.handshake {
+			// every spawned function runs to completion: a core that spins on a value another
+			// core has long written never does
+			s.ArmStepBound("handshake-completes", 4_000_000)
+		}
 		num, i := env.vm.Wait()
 		s.ClearDeadline("wait-returns")
 		got = classify(num, i)
@@ -380,10 +407,13 @@ func planC17(t *testing.T, tier string, seed uint64) ([]RunSpec, error) {
 		sweepCap = 0
 	}
 	idx := 0
-	for shape := 0; shape <= 6; shape++ {
+	for shape := 0; shape <= 7; shape++ {
 		for _, n := range ns {
 			for late := 0; late < 3; late++ {
 				base := RunSpec{Property: "C17", Workload: fmt.Sprintf("c17/shape%d", shape), Params: map[string]int{"shape": shape, "n": n, "iters": 1 + (n+late)%3, "main_late": late}}
+				if shape == 7 && n > 4 {
+					continue
+				}
 				if shape == 3 {
 					base.Params["at"] = late
 					base.Params["fail_kind"] = n % 2
